@@ -1,7 +1,7 @@
 """C05 — the exact algorithm returns a global optimum, with or without CPLEX."""
 import random
 from hypothesis import strategies as st
-from vlib import gen, lib, configs, oracle, cplex_standin
+from vlib import gen, lib, configs, oracle, cplex_standin, mutate
 from vlib.harness import HypSub
 from vlib.lib import Violation
 from checks.common_alg import run_case, well_formed
@@ -78,7 +78,8 @@ def cases_for(draw, tier, names, env, max_q, max_t, flags=(True,), dyadic_only=F
     ds = draw(gen.datasets(max_n=max_t if tier == "thorough" else max_q, max_m=5, shapes=SHAPES,
                            kinds=("dense", "dense1", "mult8", "negs", "str", "strodd")))
     flag = draw(st.sampled_from(list(flags)))
-    return {"config": name, "env": env, "scheme": scheme, "dataset": ds, "at_most_one": flag, "rng": 0}
+    return {"config": name, "env": env, "scheme": scheme, "dataset": ds, "at_most_one": flag, "rng": 0,
+            "via_mutation": draw(mutate.via_strategy(ds["rankings"], p=5))}
 
 
 def hard_component(inst, rankings):
